@@ -6,6 +6,7 @@ import (
 	"io"
 	"net"
 	"sync"
+	"time"
 )
 
 type Pub struct {
@@ -32,14 +33,21 @@ type Broker struct {
 	// gated mode: publishes are not forwarded to subscribers until the harness releases them
 	gated bool
 	held  []*Held
-	// SubEvents counts SUBSCRIBE packets handled (so that a harness can wait for a subscription)
-	subEvents int
+	// SubscribeDelay holds every SUBSCRIBE packet for this long before the subscription is registered and acknowledged
+	SubscribeDelay time.Duration
 }
 
 // SetGated switches forwarding to subscribers between immediate and held-until-released.
 func (b *Broker) SetGated(on bool) {
 	b.mu.Lock()
 	b.gated = on
+	b.mu.Unlock()
+}
+
+// SetSubscribeDelay makes the broker slow to register subscriptions.
+func (b *Broker) SetSubscribeDelay(d time.Duration) {
+	b.mu.Lock()
+	b.SubscribeDelay = d
 	b.mu.Unlock()
 }
 
@@ -221,6 +229,12 @@ func (b *Broker) serve(c net.Conn) {
 				t.Write(pkt)
 			}
 		case 8: // SUBSCRIBE
+			b.mu.Lock()
+			dly := b.SubscribeDelay
+			b.mu.Unlock()
+			if dly > 0 {
+				time.Sleep(dly)
+			}
 			pid := body[0:2]
 			rest := body[2:]
 			var codes []byte
